@@ -19,10 +19,13 @@ LEVEL = "exploration"
 VARIANTS = ("plain", "asan")
 EVAL_RUNS = True
 RULE = ("G1: generated layouts (6502, 6809, 68HC11, 68000, 8086; <=40 items: labels with markers, fillers biased to put "
-        "distances at 126..130, 254..258, 32766..32770 and the direct-page limit, auto-sized references to earlier/"
-        "later labels, data references, odd-length data before labels on 68000, reference table) x forced extra "
-        "passes 0..2; G2: every golden program x extra passes {0,1,2,3}. non-trivial = needed >=2 passes or contains "
-        ">=1 forward reference across a size-variable statement; distinct by (program, schedule) content hash")
+        "distances at 126..130, 254..258, 32766..32770 and the direct-page limit; about 70 operand forms: auto-sized absolute "
+        "references (direct/extended, abs.w/abs.l), short and long branches, bit-test-and-branch, d16(PC)/d8(PC,Xn)/n,PCR, "
+        "indirect and immediate forms, data words, self- and PC-references, odd-length data before labels on 68000, ASSUME DPR "
+        "in mid-file on 6809; 4% of range-limited references aim at any label and must then be rejected) x forced extra "
+        "passes 0..2; G2: every golden program x extra passes {0,1,2,3}, and golden programs cut after a seeded number of "
+        "lines x {0,1}; G3: every probe program followed by every state-setting statement x {0,1(,2)}. non-trivial = needed "
+        ">=2 passes or runs under forced extra passes; distinct by (program, schedule) content hash")
 COMPONENTS = {"real": ["asl: all repository code incl. hooks H1 (pass schedule), H4 (pass trace)"],
               "stubbed": ["storage below FILE*", "clock", "environment", "cwd"], "untouched": ["glibc stdio", "libm"]}
 ASSUMPTIONS = ["decoder tables for the instruction forms used are transcribed from the manufacturers' manuals",
@@ -45,9 +48,15 @@ def _t6502():
     # name -> list of (opcode bytes, operand kind); operand kinds: z8 (zero/direct page), a16, r8
     t.forms = {"jmp": [([0x4C], "a16")], "jsr": [([0x20], "a16")], "lda": [([0xA5], "z8"), ([0xAD], "a16")],
                "sta": [([0x85], "z8"), ([0x8D], "a16")], "bne": [([0xD0], "r8")], "beq": [([0xF0], "r8")],
-               "bcc": [([0x90], "r8")], "bmi": [([0x30], "r8")], "bvs": [([0x70], "r8")]}
-    t.short = {"bne", "beq", "bcc", "bmi", "bvs"}
-    t.maxlen = {"jmp": 3, "jsr": 3, "lda": 3, "sta": 3, "bne": 2, "beq": 2, "bcc": 2, "bmi": 2, "bvs": 2}
+               "bcc": [([0x90], "r8")], "bmi": [([0x30], "r8")], "bvs": [([0x70], "r8")], "bpl": [([0x10], "r8")], "bcs": [([0xB0], "r8")],
+               "ldx": [([0xA6], "z8"), ([0xAE], "a16")], "lda.x": [([0xB5], "z8"), ([0xBD], "a16")], "jmp.ind": [([0x6C], "a16")],
+               "inc": [([0xE6], "z8"), ([0xEE], "a16")], "cpx": [([0xE4], "z8"), ([0xEC], "a16")]}
+    t.short = {"bne", "beq", "bcc", "bmi", "bvs", "bpl", "bcs"}
+    t.alias = {"lda.x": "lda", "jmp.ind": "jmp"}
+    t.prefix = {"jmp.ind": "("}
+    t.suffix = {"lda.x": ",x", "jmp.ind": ")"}
+    t.maxlen = {"jmp": 3, "jsr": 3, "lda": 3, "sta": 3, "bne": 2, "beq": 2, "bcc": 2, "bmi": 2, "bvs": 2, "bpl": 2, "bcs": 2, "ldx": 3, "lda.x": 3,
+                "jmp.ind": 3, "inc": 3, "cpx": 3}
     return t
 
 
@@ -61,12 +70,15 @@ def _t6809():
                # program-counter relative indexed operands, 8 or 16 bit offset chosen by the assembler
                "lda.pcr": [([0xA6, 0x8C], "r8"), ([0xA6, 0x8D], "r16")], "leax.pcr": [([0x30, 0x8C], "r8"), ([0x30, 0x8D], "r16")],
                "jmp.pcr": [([0x6E, 0x8C], "r8"), ([0x6E, 0x8D], "r16")]}
-    t.forms.update({"bsr": [([0x8D], "r8")], "lbne": [([0x10, 0x26], "r16")]})
+    t.forms.update({"bsr": [([0x8D], "r8")], "lbne": [([0x10, 0x26], "r16")],
+                    "lda.ind": [([0xA6, 0x9F], "a16")], "jmp.ind": [([0x6E, 0x9F], "a16")], "lda.ext": [([0xB6], "a16")],
+                    "ldd": [([0xDC], "z8"), ([0xFC], "a16")], "std": [([0xDD], "z8"), ([0xFD], "a16")], "ldy": [([0x10, 0x9E], "z8"), ([0x10, 0xBE], "a16")]})
     t.short = {"bra", "bne", "bsr"}
     t.near16 = {"lbra", "lbsr", "lbne", "lda.pcr", "leax.pcr", "jmp.pcr"}
-    t.alias = {"lda.pcr": "lda", "leax.pcr": "leax", "jmp.pcr": "jmp"}
-    t.suffix = {"lda.pcr": ",pcr", "leax.pcr": ",pcr", "jmp.pcr": ",pcr"}
-    t.maxlen = {"lda": 3, "ldx": 3, "jmp": 3, "jsr": 3, "bra": 2, "bne": 2, "lbra": 3, "lbsr": 3, "lda.pcr": 4, "leax.pcr": 4, "jmp.pcr": 4, "bsr": 2, "lbne": 4}
+    t.alias = {"lda.pcr": "lda", "leax.pcr": "leax", "jmp.pcr": "jmp", "lda.ind": "lda", "jmp.ind": "jmp", "lda.ext": "lda"}
+    t.prefix = {"lda.ind": "[", "jmp.ind": "[", "lda.ext": ">"}
+    t.suffix = {"lda.pcr": ",pcr", "leax.pcr": ",pcr", "jmp.pcr": ",pcr", "lda.ind": "]", "jmp.ind": "]"}
+    t.maxlen = {"lda": 3, "ldx": 3, "jmp": 3, "jsr": 3, "bra": 2, "bne": 2, "lbra": 3, "lbsr": 3, "lda.pcr": 4, "leax.pcr": 4, "jmp.pcr": 4, "bsr": 2, "lbne": 4, "lda.ind": 4, "jmp.ind": 4, "lda.ext": 3, "ldd": 3, "std": 3, "ldy": 4}
     return t
 
 
@@ -76,13 +88,14 @@ def _t6811():
     t.byte, t.word, t.res = "fcb", "fdb", "rmb"
     t.forms = {"ldaa": [([0x96], "z8"), ([0xB6], "a16")], "ldx": [([0xDE], "z8"), ([0xFE], "a16")],
                "jmp": [([0x7E], "a16")], "jsr": [([0x9D], "z8"), ([0xBD], "a16")], "bra": [([0x20], "r8")], "bne": [([0x26], "r8")],
-               "bsr": [([0x8D], "r8")],
+               "bsr": [([0x8D], "r8")], "ldd": [([0xDC], "z8"), ([0xFC], "a16")], "std": [([0xDD], "z8"), ([0xFD], "a16")],
+               "ldy": [([0x18, 0xDE], "z8"), ([0x18, 0xFE], "a16")], "inc": [([0x7C], "a16")],
                # bit test and branch: the displacement is the fourth byte
                "brset.d": [([0x12, 0x10, 0x01], "r8")], "brclr.d": [([0x13, 0x10, 0x01], "r8")], "brset.x": [([0x1E, 0x05, 0x02], "r8")]}
     t.short = {"bra", "bne", "bsr", "brset.d", "brclr.d", "brset.x"}
     t.alias = {"brset.d": "brset", "brclr.d": "brclr", "brset.x": "brset"}
     t.prefix = {"brset.d": "$10,#1,", "brclr.d": "$10,#1,", "brset.x": "5,x,#2,"}
-    t.maxlen = {"ldaa": 3, "ldx": 3, "jmp": 3, "jsr": 3, "bra": 2, "bne": 2, "bsr": 2, "brset.d": 4, "brclr.d": 4, "brset.x": 4}
+    t.maxlen = {"ldaa": 3, "ldx": 3, "jmp": 3, "jsr": 3, "bra": 2, "bne": 2, "bsr": 2, "brset.d": 4, "brclr.d": 4, "brset.x": 4, "ldd": 3, "std": 3, "ldy": 4, "inc": 3}
     return t
 
 
@@ -97,16 +110,18 @@ def _t68k():
                "lea.pc": [([0x41, 0xFA], "pcw")], "jmp.pc": [([0x4E, 0xFA], "pcw")], "jsr.pc": [([0x4E, 0xBA], "pcw")],
                "pea.pc": [([0x48, 0x7A], "pcw")], "move.pc": [([0x30, 0x3A], "pcw")], "btsti.pc": [([0x08, 0x3A, 0x00, 0x03], "pcw")],
                "btstd.pc": [([0x03, 0x3A], "pcw")], "cmp.pc": [([0xB0, 0x7A], "pcw")], "movem.pc": [([0x4C, 0xBA, 0x00, 0x03], "pcw")],
-               "dbra": [([0x51, 0xC8], "pcw")]}
-    t.short = set()
+               "dbra": [([0x51, 0xC8], "pcw")], "move.imm": [([0x20, 0x3C], "l32")], "lea.pcx": [([0x41, 0xFB, 0x00], "pcx8")],
+               "cmpa.imm": [([0xB3, 0xFC], "l32")]}
     t.near16 = {"lea.pc", "jmp.pc", "jsr.pc", "pea.pc", "move.pc", "btsti.pc", "btstd.pc", "cmp.pc", "movem.pc", "dbra"}
     t.alias = {"lea.pc": "lea", "jmp.pc": "jmp", "jsr.pc": "jsr", "pea.pc": "pea", "move.pc": "move.w", "btsti.pc": "btst", "btstd.pc": "btst",
-               "cmp.pc": "cmp.w", "movem.pc": "movem.w"}
-    t.prefix = {"btsti.pc": "#3,", "btstd.pc": "d1,", "dbra": "d0,"}
+               "cmp.pc": "cmp.w", "movem.pc": "movem.w", "move.imm": "move.l", "lea.pcx": "lea", "cmpa.imm": "cmpa.l"}
+    t.prefix = {"btsti.pc": "#3,", "btstd.pc": "d1,", "dbra": "d0,", "move.imm": "#", "cmpa.imm": "#"}
+    t.short = {"lea.pcx"}
     t.maxlen = {"bra": 4, "bsr": 4, "bne": 4, "beq": 4, "jmp": 6, "jsr": 6, "lea": 6, "move.w": 6, "lea.pc": 4, "jmp.pc": 4, "jsr.pc": 4, "pea.pc": 4,
-                "move.pc": 4, "btsti.pc": 6, "btstd.pc": 4, "cmp.pc": 4, "movem.pc": 6, "dbra": 4}
+                "move.pc": 4, "btsti.pc": 6, "btstd.pc": 4, "cmp.pc": 4, "movem.pc": 6, "dbra": 4, "move.imm": 6, "lea.pcx": 4, "cmpa.imm": 6}
     t.suffix = {"lea": ",a0", "move.w": ",d0", "lea.pc": "(pc),a0", "jmp.pc": "(pc)", "jsr.pc": "(pc)", "pea.pc": "(pc)", "move.pc": "(pc),d0",
-                "btsti.pc": "(pc)", "btstd.pc": "(pc)", "cmp.pc": "(pc),d0", "movem.pc": "(pc),d0/d1"}
+                "btsti.pc": "(pc)", "btstd.pc": "(pc)", "cmp.pc": "(pc),d0", "movem.pc": "(pc),d0/d1", "move.imm": ",d0", "lea.pcx": "(pc,d0.w),a0",
+                "cmpa.imm": ",a1"}
     return t
 
 
@@ -115,9 +130,14 @@ def _t8086():
     t.name, t.cpu, t.org, t.be, t.align = "8086", "8086", [0x100, 0x1000, 0x7F00], False, 1
     t.byte, t.word, t.res = "db", "dw", "ds"
     t.forms = {"jmp": [([0xEB], "r8"), ([0xE9], "r16")], "call": [([0xE8], "r16")], "jz": [([0x74], "r8")], "jnz": [([0x75], "r8")],
-               "loop": [([0xE2], "r8")], "jcxz": [([0xE3], "r8")]}
-    t.short = {"jz", "jnz", "loop", "jcxz"}
-    t.maxlen = {"jmp": 3, "call": 3, "jz": 2, "jnz": 2, "loop": 2, "jcxz": 2}
+               "loop": [([0xE2], "r8")], "jcxz": [([0xE3], "r8")], "jc": [([0x72], "r8")], "jg": [([0x7F], "r8")],
+               "mov.mem": [([0x2E, 0xA1], "a16"), ([0xA1], "a16")],  # label in CODE: CS: override prefix
+                "lea": [([0x8D, 0x1E], "a16")], "mov.imm": [([0xBB], "a16")]}
+    t.short = {"jz", "jnz", "loop", "jcxz", "jc", "jg"}
+    t.alias = {"mov.mem": "mov", "mov.imm": "mov"}
+    t.prefix = {"mov.mem": "ax,word ptr [", "lea": "bx,[", "mov.imm": "bx,"}
+    t.suffix = {"mov.mem": "]", "lea": "]"}
+    t.maxlen = {"jmp": 3, "call": 3, "jz": 2, "jnz": 2, "loop": 2, "jcxz": 2, "jc": 2, "jg": 2, "mov.mem": 4, "lea": 4, "mov.imm": 3}
     return t
 
 
@@ -356,6 +376,10 @@ def decode(lay, img):
                         elif kind == "l32":
                             refs.append((idx, "%s abs.l" % mn, val(rd(p, 4)), it[2], a))
                             a = p + 4
+                        elif kind == "pcx8":
+                            # brief extension word: the displacement byte counts from the extension word's address
+                            refs.append((idx, "%s d8(PC,Xn)" % mn, (p - 1 + s(rd(p, 1)[0], 8)) & 0xFFFFFFFF, it[2], a))
+                            a = p + 1
                         elif kind == "pcw":
                             refs.append((idx, "%s d16(PC)" % mn, (p + s(val(rd(p, 2)), 16)) & 0xFFFFFFFF, it[2], a))
                             a = p + 2
@@ -696,6 +720,8 @@ def run_passleak(sim, case, acc):
         pname, si = pairs[pi]
         probe = _strip_ifdef(c18.PROBES[pname])
         setter = c18.SETTERS[si]
+        if "export_sym" in setter or "extern_sym" in setter:
+            continue  # these setters emit code of another granularity over the probe's addresses
         if pname not in solo:
             r, san = sim.run("asl", asl_scenario(probe.encode("latin1"), 0, 24), "plain")
             acc["runs"] += 1
